@@ -12,3 +12,6 @@ open Bec2Verif.C19
 #print axioms p256_header_is_der_prefix
 #print axioms p256_header_parses
 #print axioms p256_raw_of_der
+#print axioms compressed_point_roundtrip
+#print axioms p256_compressed_point_roundtrip
+#print axioms jacobi_is_jacobi_symbol
